@@ -29,7 +29,8 @@ Native(h, bytes) == IF h = "LE" THEN bytes ELSE Rev(bytes)
 StoreImage(h, e, bytes) == Native(h, IF e = "BE" /\ Len(bytes) > 1 THEN Rev(bytes) ELSE bytes)
 LoadValue(h, e, image) == LET n == Native(h, image) IN IF e = "BE" /\ Len(image) > 1 THEN Rev(n) ELSE n
 
-Mem0 == T([i \in 1..24 |-> 16 + i])
+\* pairwise distinct bytes, every other one with its top bit set: sign-extending loads see both signs, whichever byte ends up on top
+Mem0 == T([i \in 1..24 |-> IF i % 2 = 1 THEN 128 + i ELSE 16 + i])
 Put(mem, a, img) == T([i \in 1..Len(mem) |-> IF i > a /\ i <= a + Len(img) THEN img[i - a] ELSE mem[i]])
 Get(mem, a, w) == SubSeq(mem, a + 1, a + w)
 
